@@ -16,7 +16,7 @@ known = ["| key | property | what fails |", "|---|---|---|"]
 for k in kf["known"]:
     known.append("| %s | %s | %s |" % (k["key"], k["property"], k["what"].replace("|", "/")))
 seeded = ["| id | breaks | caught by | what it needs to manifest |", "|---|---|---|---|"]
-for d in sorted(glob.glob(os.path.join(HERE, "seeded", "[CFGHSTUVW]*"))):
+for d in sorted(glob.glob(os.path.join(HERE, "seeded", "[CFGHSTUVWX]*"))):
     mp = os.path.join(d, "meta.json")
     if not os.path.exists(mp):
         continue
